@@ -587,8 +587,9 @@ class SoftPiecewiseConstantCoalescentGrid(ConstantCoalescent):
 
         grid = self.grid.expand(batch_shape + torch.Size([-1]))
 
-        sampling_heights, sampling_counts = node_heights.flatten()[:taxa_count].unique(
-            return_counts=True
+        # sampling times are data: unique() has no derivative
+        sampling_heights, sampling_counts = (
+            node_heights.flatten()[:taxa_count].detach().unique(return_counts=True)
         )
         sampling_heights = sampling_heights.expand(batch_shape + torch.Size([-1]))
         sampling_counts = sampling_counts.expand(batch_shape + torch.Size([-1]))
